@@ -290,7 +290,28 @@ func cmdSelftest(args []string) int {
 					info := rn.exec(v, 120*time.Second, "exec", "-prop", *prop, "-seed", fmt.Sprint(*seed), "-index", fmt.Sprint(i*7), "-tier", *tier, "-noplan", "-variant", v.Name)
 					out := "<died>" + fatalClass(fatalSummary(info.Stderr))
 					if info.Out != nil {
-						bb, _ := json.Marshal(info.Out.Result)
+						// compared: observations, violations, the schedule (who yielded
+						// where to whom), fault counters. Not compared: the global yield
+						// counter and what depends on it (go-json ranges over Go maps
+						// while compiling; the number of yield points passed inside
+						// such loops is not under the simulator's control).
+						res := *info.Out.Result
+						res.Yields, res.Steps = 0, 0
+						sl := append([]plan.Point(nil), res.SwitchList...)
+						for k := range sl {
+							sl[k].At = 0
+						}
+						res.SwitchList = sl
+						if res.Faults != nil {
+							f := map[string]int64{}
+							for k, v := range res.Faults {
+								if k != "cache_returns_checked" && k != "distinct_programs" {
+									f[k] = v
+								}
+							}
+							res.Faults = f
+						}
+						bb, _ := json.Marshal(&res)
 						out = string(bb)
 					}
 					for _, lg := range info.RaceLogs {
@@ -304,7 +325,7 @@ func cmdSelftest(args []string) int {
 						first = out
 					} else if out != first {
 						bad++
-						fmt.Printf("NONDETERMINISM variant=%s plan=%d rep=%d\n  first: %s\n  now:   %s\n", v.Name, i*7, r, clip(first, 600), clip(out, 600))
+						fmt.Printf("NONDETERMINISM variant=%s plan=%d rep=%d differing keys: %s\n", v.Name, i*7, r, diffKeys(first, out))
 					}
 					mu.Unlock()
 				}
@@ -317,4 +338,19 @@ func cmdSelftest(args []string) int {
 		return 1
 	}
 	return 0
+}
+
+func diffKeys(a, b string) string {
+	var x, y map[string]json.RawMessage
+	if json.Unmarshal([]byte(a), &x) != nil || json.Unmarshal([]byte(b), &y) != nil {
+		return "(not comparable) " + clip(a, 200) + " | " + clip(b, 200)
+	}
+	var ks []string
+	for k, v := range x {
+		if string(y[k]) != string(v) {
+			ks = append(ks, k+": "+clip(string(v), 160)+" | "+clip(string(y[k]), 160))
+		}
+	}
+	sort.Strings(ks)
+	return strings.Join(ks, "\n      ")
 }
